@@ -484,12 +484,13 @@ def run(ctx):
         tlc.sort(key=lambda c: json.dumps(c['src'], sort_keys=True))
         cases = [_tlc_case(c, 't%d' % k) for k, c in enumerate(tlc)]
         rnd = random.Random(ctx.seed * 7919 + 5)
-        nrand = ctx.pick(400, 6000)
+        nrand = ctx.pick(400, 4000)
         for k in range(nrand):
             big = (not ctx.quick) and k % 60 == 0
             cases.append(_random_case(rnd, 'r%d' % k, 200 if big else (40 if k % 25 == 0 else 12)))
     results = core.pmap(_safe_execute, cases)
     traces = []
+    evals = {}
     identical = compared = 0
     for tid, (case, (events, mism, info)) in enumerate(zip(cases, results)):
         ctx.evaluated()
@@ -502,6 +503,15 @@ def run(ctx):
         for m in mism:
             ctx.violation(m['kind'], _slim(case), tags=tags, detail=m)
         traces.append((tid, events))
+        for e in events:                     # per-clause evaluation counts (vacuity)
+            if e['ev'] == 'line':
+                ln = ''.join(map(chr, e['c']))
+                k = 'record%s_lines' % ln[79] if _is_record(ln) else 'other_lines'
+                evals[k] = evals.get(k, 0) + 1
+            elif e['ev'] == 'read':
+                k = 'reads_raised' if e['raised'] else 'reads_%s' % e['fmt']
+                evals[k] = evals.get(k, 0) + 1
+                evals['species_read_back'] = evals.get('species_read_back', 0) + len(e['sp'])
         if tid % 353 == 0:
             ctx.sample({'kind': case['kind'], 'names': [s['name'] for s in case['species']][:6],
                         'elements': [s['elements'] for s in case['species']][:3],
@@ -510,6 +520,11 @@ def run(ctx):
     fails, stats = core.validate_traces('Trace_Thermdat', 'Trace', traces)
     ctx.count('traces_validated_against_impl', len(traces))
     ctx.coverage['trace_lines'] = stats['lines']
+    ctx.coverage['clause_evaluations'] = dict(sorted(evals.items()))
+    if not ctx.replay_case and min(evals.get(k, 0) for k in
+                                   ('record1_lines', 'record2_lines', 'record3_lines', 'record4_lines',
+                                    'other_lines', 'reads_list', 'reads_tuple', 'reads_dict')) == 0:
+        raise core.MachineryError('vacuous run: %r' % (evals,))
     if compared:
         ctx.coverage['real_files_identical_to_spec_writer'] = '%d of %d' % (identical, compared)
         if identical < compared:
